@@ -3,8 +3,8 @@ import N0Verif.Proofs.Compare
 The default (keyed, unordered) comparison — `cfg = Cfg.default fl false` — reports no difference
 iff the two trees are equal up to the order of the non-record items inside each list
 (`eqv`), provided the key of the non-record list items — their JSON text with sorted keys (fixes C07-b, C07-c) —
-identifies them exactly up to structural equality `deq` (`KeyFaithful`: a fact about `json.dumps`, proved here for
-leaves in `CompareDefaultTight.lean`).
+identifies them exactly up to structural equality `deq` (`KeyFaithful`: a fact about `json.dumps`, taken as a
+hypothesis; necessary: `dt_tight` in `CompareDefaultTight.lean`).
 -/
 namespace N0.Compare
 open N0
